@@ -33,7 +33,7 @@ def required(tier):
     return ['target:multistream', 'single', 'parallel', 'series', 'system', 'basis-equivalence', 'target:stream', 'target:stream-foreign', 'target:sv', 'target:nd',
             'target:sa', 'target:nd2', 'must-raise', 'phase-tagged',
             'set:one-member', 'system:one-part', 'form:str-int', 'form:auto-reactant', 'form:auto-phase', 'phases:solid', 'phases:three', 'phases:Ll', 'target:stream.mol', 'target:stream.mass',
-            'target:stream-subset', 'target:stream-superset', 'sub:item', 'sub:iter', 'sub:slice', 'call:force', 'conversion', 'reactant-flux', 'feed:co-reactant-exactly-consumed']
+            'target:stream-subset', 'target:stream-superset', 'sub:item', 'sub:iter', 'sub:slice', 'call:force', 'conversion', 'reactant-flux', 'feed:co-reactant-exactly-consumed', 'combined:+/mixed-basis', 'combined:sum/mixed-basis']
 
 
 PHASE_SETS = [('g', 'l')] * 6 + [('l', 's'), ('L', 'l'), ('g', 'l', 's'), ('L', 'g', 'l')]      # sorted the way the library sorts phases
@@ -524,9 +524,73 @@ def siblings(call, case, full, rec, rx, obj, read, flows, expected, th, MW, tag,
     if exp > 0: rec.mark_nontrivial(case_hash(full))
 
 
+# ---------------------------------------------------------------------------------------------------------------------
+# reactions obtained by arithmetic (a + b, sum([...]), a - b) from balanced reactions on possibly different bases are balanced reactions too:
+# applied to a stream they conserve mass and atoms and act like their members in parallel
+
+def gen_sum(rng):
+    for _ in range(200):
+        a = R.gen_reaction(rng, phases_p=0); r = a['reactant']; others = []
+        for _ in range(60):
+            b = R.gen_reaction(rng, phases_p=0)
+            if r in b['st']:
+                if b['st'][r] > 0: b['st'] = {i: -v for i, v in b['st'].items()}
+                b['reactant'] = r; others.append(b)
+                if len(others) == 2: break
+        if len(others) == 2: break
+    rx = [a] + others[:rng.choice([1, 2])]
+    for d in rx:
+        d['X'] = round(rng.uniform(0.02, 0.25), 4); d['basis'] = rng.choice(['mol', 'wt'])
+    feed = {i: round(10 ** rng.uniform(1.5, 3), 3) for i in R.IDS}
+    return {'t': 'sum', 'rx': rx, 'how': rng.choice(['+', 'sum', '+=']), 'feed': feed, 'foreign': rng.random() < 0.25}
+
+
+def run_sum(case, rec):
+    rec.begin_case(case)
+    th = R.thermo(); MW = R.mw(th)
+    try:
+        objs = [R.build_reaction(d, th) for d in case['rx']]
+        if case['how'] == '+':
+            tot = objs[0]
+            for o in objs[1:]: tot = tot + o
+        elif case['how'] == 'sum': tot = sum(objs)
+        else:
+            tot = objs[0].copy()
+            for o in objs[1:]: tot += o
+    except Exception as e:
+        rec.exception('combine', e, what=f'combining {len(case["rx"])} reactions ({case["how"]}) raised {type(e).__name__}: {str(e)[:150]}'); return
+    bases = '/'.join(d['basis'] for d in case['rx'])
+    tag = f'{case["how"]}/{"same-basis" if len(set(d["basis"] for d in case["rx"])) == 1 else "mixed-basis"}'
+    rec.hit('combined:' + tag)
+    sth = R.thermo(perm=True) if case['foreign'] else th
+    st = tmo.Stream(None, thermo=sth)
+    for i, v in case['feed'].items(): st.imol[i] = v
+    flows = dict(case['feed'])
+    try:
+        tot(st)
+    except InfeasibleRegion:
+        rec.refuse('InfeasibleRegion'); return
+    except Exception as e:
+        rec.exception('combine', e, what=f'applying a combined reaction ({tag}) raised {type(e).__name__}: {str(e)[:150]}'); return
+    got = {st.chemicals.IDs[j]: v for j, v in st.imol.data.dct.items()}
+    m0, m1 = R.mass_of(flows, MW), R.mass_of(got, MW)
+    rec.check(abs(m1 - m0) <= 1e-11 * max(m0, m1), 'mass', f'combined/{tag}', f'a reaction obtained by {case["how"]} of reactions on bases {bases} changed total mass {m0!r} -> {m1!r}', residual=abs(m1 - m0) / max(m0, 1e-300))
+    a0, a1 = R.atoms_of(flows), R.atoms_of(got); amax = max(a0)
+    rec.check(all(abs(x - y) <= 1e-11 * max(abs(x), abs(y)) + 1e-12 * amax for x, y in zip(a0, a1)), 'atoms', f'combined/{tag}', f'a reaction obtained by {case["how"]} of reactions on bases {bases} changed element totals {a0} -> {a1}')
+    # species: the members in parallel on the feed
+    exp = dict(flows)
+    for d in case['rx']:
+        ext = R.model_extent(flows, d)
+        for i, v in d['st'].items(): exp[i] = exp.get(i, 0.0) + ext * v / -d['st'][d['reactant']]
+    scale = max(flows.values())
+    bad = [(k, got.get(k, 0.0), exp.get(k, 0.0)) for k in set(got) | set(exp) if abs(got.get(k, 0.0) - exp.get(k, 0.0)) > 1e-10 * max(abs(got.get(k, 0.0)), abs(exp.get(k, 0.0))) + 1e-12 * scale]
+    rec.check(not bad, 'species', f'combined/{tag}', f'combined reaction ({tag}; bases {bases}) differs from its members in parallel: {bad[:4]}')
+    rec.mark_nontrivial(case_hash(case))
+
+
 def replay(case, rec):
     R.check_atoms()
-    run_case(case, rec)
+    (run_sum if case.get('t') == 'sum' else run_case)(case, rec)
 
 
 def run(rec, rng, tier, shard, nshards):
@@ -539,3 +603,9 @@ def run(rec, rng, tier, shard, nshards):
         except Exception as e:
             rec.exception('harness', e, what=f'harness error: {type(e).__name__}: {e}')
         if i % 401 == 0: rec.sample(case)
+    for i in range(400 if tier == 'quick' else 4000):
+        case = gen_sum(rng)
+        try:
+            run_sum(case, rec)
+        except Exception as e:
+            rec.exception('harness', e, what=f'harness error: {type(e).__name__}: {e}')
